@@ -557,7 +557,7 @@ func (p *pkiSpec) instantiate() (*pki, error) {
 
 func mkPool(cs []*mCert, poolMode int) *smx509.CertPool {
 	pool := smx509.NewCertPool()
-	if poolMode == 0 || poolMode == 2 {
+	if poolMode == 0 || poolMode == 2 || poolMode == 3 {
 		for _, c := range cs {
 			pool.AddCert(c.cert)
 		}
@@ -888,8 +888,9 @@ func verifyOnce(t *engine.T, p *pki, devs []deviation, vt vtime, poolMode int, m
 	opts := smx509.VerifyOptions{Roots: mkPool(p.roots, poolMode), Intermediates: mkPool(p.inter, poolMode), CurrentTime: vt.t,
 		KeyUsages: append([]x509.ExtKeyUsage(nil), p.reqEKU...), MaxConstraintComparisions: p.maxCmp}
 	p.rootMaxLen = 0
-	if poolMode == 2 {
+	if poolMode == 2 || poolMode == 3 {
 		// roots registered with a constraint callback: chains of more than 3 certificates are refused by it
+		// (mode 3: verification runs against Clone()s of the pools - a copy must carry everything the original does)
 		p.rootMaxLen = 3
 		defer func() { p.rootMaxLen = 0 }()
 		pool := smx509.NewCertPool()
@@ -911,6 +912,10 @@ func verifyOnce(t *engine.T, p *pki, devs []deviation, vt vtime, poolMode int, m
 			})
 		}
 		opts.Roots = pool
+		if poolMode == 3 {
+			opts.Roots = pool.Clone()
+			opts.Intermediates = opts.Intermediates.Clone()
+		}
 	}
 	leaf := p.leaf.cert
 	if poolMode == 1 {
@@ -928,6 +933,16 @@ func verifyOnce(t *engine.T, p *pki, devs []deviation, vt vtime, poolMode int, m
 		return "panic"
 	}
 	t.Eval(1)
+	// the options belong to the caller: the requested usages are the same list after the call
+	if len(opts.KeyUsages) != len(p.reqEKU) {
+		t.Fail("topo/verify-options-modified/KeyUsages", "%s: KeyUsages has %d entries after Verify, %d before", desc(), len(opts.KeyUsages), len(p.reqEKU))
+	}
+	for i := range p.reqEKU {
+		if i < len(opts.KeyUsages) && opts.KeyUsages[i] != p.reqEKU[i] {
+			t.Fail("topo/verify-options-modified/KeyUsages", "%s: Verify changed the caller's KeyUsages from %v to %v", desc(), p.reqEKU, opts.KeyUsages)
+			break
+		}
+	}
 	p.judgeReturned(t, desc, chains, err, vt.t)
 	has := p.modelHasChain(vt.t)
 	t.Extra("chains_judged", len(chains))
@@ -983,7 +998,7 @@ func runTopo(t *engine.T, mode string, n int, devs []deviation, times []vtime) m
 	t.Nontrivial(fmt.Sprintf("topo/%s/%d/%v", mode, n, devs))
 	res := map[string]string{}
 	for _, vt := range times {
-		for poolMode := 0; poolMode < 3; poolMode++ {
+		for poolMode := 0; poolMode < 4; poolMode++ {
 			must := len(devs) == 0 && !vt.t.Before(tNB) && !vt.t.After(tNA)
 			r := verifyOnce(t, p, devs, vt, poolMode, must)
 			if poolMode == 0 {
